@@ -11,4 +11,6 @@ done
 (cd lean && lake build Cav cavdrv)
 [ -f harness/Cargo.lock ] || cp /repo/Cargo.lock harness/Cargo.lock
 (cd harness && RUSTFLAGS="--cfg cavint_verif -Awarnings" cargo build --release --offline)
+# the extension module for the CPython probe (C20)
+(cd /repo && RUSTFLAGS="--cfg cavint_verif -Awarnings" cargo build --release --offline --lib --target-dir /verif/harness/target/cdylib)
 echo setup-ok
